@@ -274,7 +274,7 @@ def run_all(ctx, g, only=None):
     seen_sigs = set()                                   # one report per signature (the first, smallest case)
     for nid, entry, hdr in cases(g):
         st = tlaval.to_py(g.nodes[nid])
-        if only is not None and (list(st["op"]), st["lref"], st["pref"], entry, hdr) != only:
+        if only is not None and [list(st["op"]), st["lref"], st["pref"], entry, hdr] != list(only):
             continue
         viol, drift, runs, case = run_case(g, nid, template, root, vals, entry, hdr)
         nruns += runs
